@@ -168,10 +168,21 @@ def search(prep, spec, timeout, excl=()) -> dict:
 def judge(prep, inputs_json: dict, timeout: float, excl=()) -> dict:
     reg, ctx, unit, c, mod, owner, fn = prep
     inputs = {k: decode(v, mod) for k, v in inputs_json.items()}
+    is_init = unit.endswith(".__init__") and owner is not None
+    if is_init and "self" not in inputs:
+        inputs["self"] = owner.__new__(owner)
     local = dict(inputs)
+    # class invariants are part of the method's pre- and postcondition (same rule as the prover)
+    inv = []
+    if owner is not None and c.invariants:
+        for q, cs in reg.classes.items():
+            if q.split(":")[-1] == owner.__name__:
+                inv = list(cs.invariant)
+    requires = ([] if is_init else inv) + list(c.requires)
+    ensures = inv + list(c.ensures)
     # 1. precondition
     try:
-        for r in c.requires:
+        for r in requires:
             if not ctx.evaluate(r, local):
                 return {"status": "precondition-false", "clause": r}
     except Exception as ex:
@@ -243,13 +254,14 @@ def judge(prep, inputs_json: dict, timeout: float, excl=()) -> dict:
                             "detail": f"returned normally although {cond!r} holds", "result": brief(result)}
             except Exception:
                 pass
-    for k, e in enumerate(c.ensures):
+    for k, e in enumerate(ensures):
         try:
             ok = ctx.evaluate(e, local, old_local)
         except runtime._Short:
             ok = False
         except Exception as ex:
-            return {"status": "violation", "kind": f"ensures[{k}]", "clause": e,
+            # a contract the runner cannot evaluate is a defect of the runner/contract, never a violation
+            return {"status": "error", "kind": f"ensures[{k}]", "clause": e,
                     "detail": f"postcondition not evaluable: {type(ex).__name__}: {ex}", "result": brief(result)}
         if not ok:
             return {"status": "violation", "kind": f"ensures[{k}]", "clause": e, "result": brief(result)}
